@@ -160,7 +160,12 @@ def rule_who_calls(fx, rep):
             unchecked = fx.impl_method(enc, 'bls12_381::ec::%s::%s%s' % (m, G, k), 'into_affine_unchecked')
             callers = set(cg.callers(unchecked))
             own = fx.impl_method(enc, 'bls12_381::ec::%s::%s%s' % (m, G, k), 'into_affine')
-            rep.check(callers <= {own}, 'WIRE', 'callers:%s%s::into_affine_unchecked' % (G, k), 'called only by the matching checked decoder',
+            if callers - {own}:
+                # a deserializer may use the unchecked decoder when it applies the membership predicate itself (decided by
+                # the deserializer tables of C19: Ok exactly when the decoder accepts and in_subgroup() holds)
+                from props import c19
+                callers = callers - c19.validated_unchecked_callers(fx)
+            rep.check(callers <= {own}, 'WIRE', 'callers:%s%s::into_affine_unchecked' % (G, k), 'called only by the matching checked decoder (or by a deserializer that validates the result itself)',
                       'the unchecked decoder is called from %s' % sorted(callers - {own}), construct=unchecked)
         gpx = roles.roles(fx)[G].get('get_point_from_x')
         rnd = fx.impl_method('CurveProjective', proj, 'random')
